@@ -42,6 +42,9 @@ func shapeJobs() []string {
 				out = append(out, m+"/T2/"+sib+ds)
 			}
 			out = append(out, m+"/T3/int"+ds, m+"/T4/nested"+ds, m+"/T5/slicestruct"+ds, m+"/T6/ptrstruct"+ds)
+			for _, k := range []string{"str", "bool", "float", "time"} {
+				out = append(out, m+"/T8/"+k+ds) // a focus node of another kind next to a required Int
+			}
 			if v.Tier() == 1 {
 				out = append(out, m+"/T7/three"+ds) // three fields: six visit orders
 			}
@@ -130,6 +133,21 @@ func buildShape(job string) *shape {
 		if tcode != "" {
 			sh.top.TCode, sh.top.TX = tcode, v.Int("top.tx")
 		}
+	case "T8":
+		var focus Node
+		key := ""
+		switch variant {
+		case "str":
+			focus, key = newStr("a", fdeco, focusNT(), classesFor(mode, []int{cMissing, cBlank, cVal, cAlt})), "s"
+		case "bool":
+			focus, key = newBool("a", fdeco, 1, classesFor(mode, focusCls())), "b"
+		case "float":
+			focus, key = newFloat("a", fdeco, focusNT(), classesFor(mode, focusCls())), "f"
+		case "time":
+			focus, key = newTime("a", fdeco, focusNT(), classesFor(mode, focusCls()), mode), "w"
+		}
+		sib := newInt("b", dReq, 1, classesFor(mode, []int{cMissing, cVal}))
+		sh.top = newStruct("top", []string{key, "j"}, []Node{focus, sib}, []int{cVal})
 	case "T3":
 		el := newIntDeco("e", fdeco, 1)
 		sh.sl = newSlice("sl", v.Choice("sdeco", 4)&(dReq|dDef), 1, el, classesFor(mode, []int{cMissing, cVal, cAlt}), classesFor(mode, []int{cVal, cBad, cNil}), sliceMax())
